@@ -16,6 +16,59 @@ CHECKS = {
   design="DESIGN.md 3.8, 5 (C15)"),
 }
 
+CHECKS.update({
+ "C01": dict(engine="ISA",
+  technique="TLA+ model ISA.tla (handbook opcode table of 252 mnemonics + encoder vs. an independent range decoder / CPU fetch machine) model-checked by TLC; every state of the instruction-form graph exported with predicted words and replayed into the real assembler (M->C); the CPU machine re-run by TLC on the real words (C->M)",
+  text="Model checking of DecodeRecoversSource, NoOverlap (all 65536 words), synonym/alias consistency on the specification, and exhaustive-within-bounds conformance: quick = all 252 mnemonics with representatives of every operand class plus all operand-form pairs for 21 mnemonics, every inline number, every encodable branch distance, mixed programs at three bases; thorough = 252 mnemonics x all operand-form pairs x value classes x bases (about 5*10^5 forms).",
+  note="Trusted: the opcode table of DESIGN.md Appendix A written from the processor handbooks (the ten 1801VM2-only rows are weakly independent), TLC, the renderer harness/isa.py, public entry points of the assembler.",
+  design="DESIGN.md 3.1, 5 (C01), Appendix A"),
+ "C04": dict(engine="ISA",
+  technique="TLA+ model ISA.tla: BranchReach / RelLands checked by TLC; every branch mnemonic x byte distance, SOB x distance, relative operands x position x target x base x expression shape exported with predicted accept+words or refusal and replayed; the CPU machine run by TLC on the real words must land on the source address",
+  text="Exhaustive on mnemonic and distance (-300..+300, SOB -140..+6) in both tiers and on expression shape in thorough; accept/reject must agree with the specification's reach rule and every accepted displacement must make the specification's CPU machine arrive at the address written in the source.",
+  note="Trusted: ISA.tla's reading of the PDP-11 branch/SOB/PC-relative semantics, TLC, the renderer (labels placed with .blkb padding), public entry points.",
+  design="DESIGN.md 3.1, 5 (C04)"),
+ "C02": dict(engine="AsmCore",
+  technique="TLA+ spec AsmCore.tla: TLC writes every program over a layout alphabet and checks AddressAgreement/AnnouncedSizeHonest on its declared semantics; each program replayed into the real assembler at three bases (image, base, every symbol value); hook-H1 traces of the 21 corpus programs and of generated programs validated by TLC against LayoutTrace.tla",
+  text="Bounded-exhaustive model-to-code conformance (all programs of <= 3 (quick) / 4 (thorough) statements over 29 statement kinds incl. .repeat/.include/insert_file, plus simulated programs of up to 16 statements in 2 files) and code-to-model trace validation of every compile_block invocation of real assemblies: address given = block start + bytes before, announced size = final size, bytes at the address = bytes produced, image = concatenation of the files.",
+  note="Trusted: TLC; AsmCore.tla's declared semantics (addresses = base + bytes before; ten instruction encodings from the handbook); the renderer harness/asmcore.py; hook H1 (PDPY11_VERIF=1) recording statement/state/chunk without evaluating anything; the corpus out.bin files are not used as oracle.",
+  design="DESIGN.md 3.2, 5 (C02), 7"),
+ "C03": dict(engine="AsmCore",
+  technique="TLA+ spec AsmCore.tla (order alphabet, MoveInvariant clause) and Chain.tla model-checked by TLC; every statement order is a separate exported program replayed into the real assembler; chains to depth 300/30 in three orders and seven use positions; corpus definitions moved to random positions",
+  text="Model checking that moving a '.'-free constant definition never changes outcome or image in the declared semantics, and bounded-exhaustive conformance of the real assembler with the per-order predictions (all programs <= 3/4 statements over definition chains, diamonds, duplicates, cycles and ten kinds of use), plus deep chains and corpus moves.",
+  note="Trusted: TLC, AsmCore.tla/Chain.tla, renderer; the repository's parser is used only to locate movable definitions in corpus sources. Definition cycles are an open known finding (the assembler hangs).",
+  design="DESIGN.md 3.2, 3.3, 5 (C03)"),
+ "C06": dict(engine="Data",
+  technique="TLA+ model Data.tla of the data directives (sequences of directives, boundary value grid with limb arithmetic, alignment grid 1..64 x 65 bases, strings x 5 charsets); TLC checks 8 invariants and every exported state is replayed into the real assembler (bytes and accept/reject)",
+  text="Model checking of the store/fill/pad rules and exhaustive-within-bounds conformance: every directive x 0-8 operands x the 21-class boundary grid, all alignment moduli at all offsets, strings of <= 2/3 items (simulated to 8) in five charsets; the real assembler must emit the predicted bytes or refuse exactly where the model refuses.",
+  note="Trusted: Data.tla's semantics written from the property statement and MACRO-11 practice; the charset byte table (cross-checked at run time against Python's codecs); renderer; TLC.",
+  design="DESIGN.md 5 (C06)"),
+ "C09": dict(engine="AsmCore",
+  technique="TLA+ spec AsmCore.tla (relocation alphabet): TLC evaluates every program at four link bases and checks RelocationLaw on the predicted images; the real assembler is run at the same bases and must reproduce each predicted image",
+  text="Model checking of the relocation law on the specification (word-wise differences are 0 or exactly the base difference; programs without absolute references are identical) and bounded-exhaustive conformance of the real images at bases 0o1000, 0o40000, 0o157776 and 0o177776 (wrap-around).",
+  note="Trusted: TLC, AsmCore.tla (ten instruction encodings from the handbook), renderer.",
+  design="DESIGN.md 3.2, 5 (C09)"),
+ "C11": dict(engine="AsmCore",
+  technique="TLA+ spec AsmCore.tla (scope alphabet): declared scoping (local regions, per-file and per-include privacy, exports, precedence, duplicates) evaluated by TLC on every program over 1-3 files and two includable files; each program replayed into the real assembler (probe words, listed symbol values, accept/reject)",
+  text="Bounded-exhaustive conformance with the declared scoping rules: all single-file programs <= 3 statements (quick; 2x2 files exhaustive in thorough) plus simulated programs over 3 files x 4 statements with includes.",
+  note="Trusted: TLC, AsmCore.tla's scoping rules written from the property statement, renderer. Exporting a name the file does not define is outside the declared domain (skipped).",
+  design="DESIGN.md 3.2, 5 (C11)"),
+ "C12": dict(engine="AsmCore",
+  technique="TLA+ spec AsmCore.tla (link alphabet): the base is evaluated as a linear form k*LA + c (defined iff k = 0 and no non-linear operator touched a base-dependent value); second .link, self-dependence, forward/backward '. =' predicted; every program replayed into the real assembler",
+  text="Bounded-exhaustive conformance: all programs <= 3/4 statements over 13 .link expressions, 7 '. =' forms, labels and data (plus simulated 2-file programs); predicted base, image and symbol values or rejection.",
+  note="Trusted: TLC, AsmCore.tla, renderer. Base expressions involving a size that is unknown before the base is known are outside the declared domain (skipped, counted).",
+  design="DESIGN.md 3.2, 5 (C12)"),
+ "C13": dict(engine="Tape",
+  technique="TLA+ BK-0010 tape-reader state machine (Tape.tla) model-checked against its inverse writer and mutant writers; real WAV/bin/raw files from file_formats and CLI runs validated by TLC trace validation (TapeTrace.tla); TLC-enumerated ChooseOutput scenarios replayed into the real CLI",
+  text="Model checking of read/write round trip and refusal of mutant writers on a small domain; trace validation of several hundred real output files per run (lengths 0-64 exhaustive in thorough, 65-4096 sampled, checksum-carry payloads, all bases/names, normal and turbo); 300-650 output-selection scenarios replayed through the real command line.",
+  note="Trusted: TLC; Python thresholding at 128 + run-length encoding of samples; the turbo reader and '-o -.ext' are pinned from format constants; the image is taken from asm().",
+  design="DESIGN.md 3.7, 5 (C13)"),
+ "C14": dict(engine="BkCodec",
+  technique="exhaustive enumeration of the real 'bk' codec (256 decodes + 65536 encodes) validated by a TLC monitor (BkCodecTrace.tla) against ASCII and the KOI8-R table of BkCodec.tla; TLC-enumerated strings with predicted bytes or error span replayed through str.encode, .ascii and character literals",
+  text="Exhaustive on bytes and BMP code points (trace validation), bounded on strings (<= 5 items exhaustive, <= 12 simulated).",
+  note="Trusted: TLC; the committed KOI8-R table (asserted equal to Python's koi8_r at run time); bytes 0x7F-0xBF constrained only by injectivity and round trip; documented alias U+00A4 -> 0x24.",
+  design="DESIGN.md 3.8, 5 (C14)"),
+})
+
 NOT_YET = {}
 
 
